@@ -42,6 +42,26 @@ def make_parts(N, elem, dim=2, h=1.0, mixed=False, hole=False):
         return m._Mesh_Get_Meshes(N)
 
 
+def make_parts_split(N, h=1.0, frac=0.5):
+    """a plate whose left part is meshed with TRI3 and whose right part with QUAD4 (two conforming surfaces): with enough parts
+    some ranks own no element of one of the two types, yet may own a node that touches one"""
+    from EasyFEA import Mesher, ElemType
+    from EasyFEA.Geoms import Domain, Point
+
+    L = 10.0
+    with quiet():
+        m = Mesher()
+        m._Init_gmsh("occ")
+        m._Surfaces(Domain(Point(), Point(L, L), h), [])
+        m._Additional_Surfaces(2, [Domain(Point(L * frac, 0), Point(L, L), h, isFilled=True)])
+        m._Synchronize()
+        surfaces = [tag for _, tag in m._factory.getEntities(2)]
+        m._Surfaces_Organize(surfaces[-1:], ElemType.QUAD4)
+        m._Set_PhysicalGroups()
+        m._Mesh_Generate(2, ElemType.TRI3)
+        return m._Mesh_Get_Meshes(N)
+
+
 def record(parts, ident):
     types = []
     order = list(parts[0].dict_groupElem.keys())
@@ -145,6 +165,13 @@ def run(ctx):
         parts = make_parts(N, "QUAD4", 2, 1.0, mixed=True, hole=True)
         recs.append(record(parts, ident))
         kept.append((ident, parts, "QUAD4", 2, 1.0, True))
+    split = []
+    for h, frac, ns in ((1.0, 0.5, [3, 8, 13]), (2.0, 0.3, [4, 9])) if not ctx.thorough else ((1.0, 0.5, [2, 3, 5, 8, 13, 20]), (2.0, 0.3, [3, 4, 6, 9, 12]), (1.5, 0.7, [5, 10, 15])):
+        for N in ns:
+            ident = f"splitTRI3QUAD4/N{N}/h{h}/f{frac}"
+            parts = make_parts_split(N, h, frac)
+            recs.append(record(parts, ident))
+            split.append((ident, parts, h, frac))
     for et in elems3:
         for N in Ns[:3]:
             ident = f"{et}/N{N}"
@@ -190,6 +217,16 @@ def run(ctx):
         same = all(np.array_equal(a.dict_groupElem[k]._Get_partitioned_data()[i], b.dict_groupElem[k]._Get_partitioned_data()[i]) for a, b in zip(parts, again) for k in a.dict_groupElem for i in (1, 2, 3, 4))
         if not same:
             ctx.violation(f"reproducible/{ident.split('/')[0]}", f"partitioning {ident} twice gives different data", {"id": ident})
+    lacking = 0
+    for ident, parts, h, frac in split:
+        whole = make_parts_split(1, h, frac)[0]
+        lacking += sum(1 for p_ in parts for g in p_.Get_list_groupElem(2) if g._Get_partitioned_data()[1].size == 0)
+        rows_and_energy(ctx, parts, whole, ident, "elastic")
+    if split and lacking == 0:
+        from harness.core import MachineryError
+
+        raise MachineryError("vacuous: no rank of the split TRI3 / QUAD4 partitions lacks an element type")
+    ctx.section("split_meshes", partitions=[i for i, *_ in split], ranks_owning_no_element_of_one_type=lacking)
     merge_checks(ctx)
     ctx.section("recorded", partitions=len(recs), skipped=skipped)
     ctx.sample({"id": recs[0]["id"], "types": [(t["name"], len(t["elems"])) for t in recs[0]["types"]], "rank0": {k: v[:8] for k, v in recs[0]["types"][1]["ranks"][0].items()}})
